@@ -13,10 +13,14 @@ TObs == /\ Ev("obs") /\ Call
         /\ IF Panics(sc)
            THEN Cur.exit = ExitOnPanic(sc)
            ELSE /\ Cur.exit = obs'.exit
-                /\ (sc.shape = "stream" => Cur.sendpre = obs'.sendpre /\ Cur.recvpost = obs'.recvpost)
+                /\ (sc.shape = "stream" /\ ~Fails(sc) => Cur.sendpre = obs'.sendpre /\ Cur.recvpost = obs'.recvpost)
 TOutcome ==
   /\ Ev("outcome") /\ pc = "done" /\ UNCHANGED vars
-  /\ IF ~Panics(sc) THEN Cur.ok /\ Cur.handle_calls = 0
+  /\ IF Fails(sc)
+     \* calls that do not panic are unaffected: the handler's own error reaches the client, the recovery function is idle
+     THEN ~Cur.ok /\ Cur.handle_calls = 0 /\ Cur.seen = <<>> /\ ~Cur.aborted
+          /\ Cur.code = 10 /\ Cur.msg = "handler" /\ Cur.got = GotBefore(sc)
+     ELSE IF ~Panics(sc) THEN Cur.ok /\ Cur.handle_calls = 0
      ELSE IF sc.panic.value = "abort" THEN ~Cur.ok /\ Cur.handle_calls = 0 /\ Cur.aborted
      ELSE IF Recovers(sc)
      THEN /\ Cur.handle_calls = 1 /\ Cur.seen = <<sc.panic.value>>
